@@ -38,7 +38,7 @@ D="/verif/seeded/$NAME"; mkdir -p "$D"
 [ "$SRC" = "$(realpath "$D")" ] || cp "$SRC/patch.diff" "$SRC/demo_test.go" "$D/"
 caught=""; missed=""; incon=""
 for ID in $IDS; do
-  VERIF_REPO="$S/repo" VERIF_OUT="$S/out" /verif/check "$ID" --tier quick > "$S/$ID.log" 2>&1
+  VERIF_REPO="$S/repo" VERIF_OUT="$S/out" "${VERIF_CHECK:-/verif/check}" "$ID" --tier quick > "$S/$ID.log" 2>&1
   rc=$?
   case $rc in
     1) caught="$caught $ID"; echo "$ID CAUGHT $(grep -a -m1 '^FAILED-CASE' "$S/$ID.log" | cut -c1-260)";;
